@@ -68,8 +68,38 @@ def _worker(args):
     return res
 
 
+def hard_limit():
+    """wall limit of one instance in a pool worker; beyond it the worker is killed and the instance reported as undecided.
+    The engine's own budgets (budgets(), path watchdog, solver timeouts) normally end an instance long before; this limit is
+    for solver calls that ignore their time limit (z3's non-linear procedures occasionally do, for minutes)."""
+    v = os.environ.get("VERIF_HARD_LIMIT_S")
+    if v:
+        return float(v)
+    return 120.0 if os.environ.get("VERIF_TIER") == "quick" else 600.0
+
+
+def _serve(conn):
+    """loop of one pool worker: receive (index, args), send (index, result)"""
+    while True:
+        try:
+            msg = conn.recv()
+        except (EOFError, OSError):
+            return
+        if msg is None:
+            return
+        idx, a = msg
+        res = _worker(a)
+        try:
+            conn.send((idx, res))
+        except Exception as e:  # noqa: BLE001 -- an unpicklable result is a harness error of that instance
+            conn.send((idx, {"instance": str(a[2])[:200], "errors": [f"result not transferable: {type(e).__name__}: {e}"]}))
+
+
 def run_pool(fn_module, fn_name, instances, procs=None, chunksize=None):
-    """Run fn(inst) for every instance in a fork pool; yields result dicts in order."""
+    """Run fn(inst) for every instance in forked worker processes; returns the result dicts in order.
+    Every instance has a hard wall limit (hard_limit()): a worker that exceeds it is killed and replaced, and the
+    instance is returned as undecided with a note - never as passed."""
+    from multiprocessing.connection import wait
     procs = procs or min(16, os.cpu_count() or 4)
     args = [(fn_module, fn_name, i) for i in instances]
     if not args:
@@ -77,10 +107,81 @@ def run_pool(fn_module, fn_name, instances, procs=None, chunksize=None):
     if procs <= 1 or len(args) == 1:
         return [_worker(a) for a in args]
     ctx = mp.get_context("fork")
-    if chunksize is None:
-        chunksize = max(1, min(32, len(args) // (procs * 8) or 1))
-    with ctx.Pool(procs) as pool:
-        return pool.map(_worker, args, chunksize=chunksize)
+    limit = hard_limit()
+    results = [None] * len(args)
+    pending = list(range(len(args)))[::-1]          # pop() takes the next index
+    workers = {}                                    # conn -> [process, current index or None, start time]
+
+    def spawn():
+        parent, child = ctx.Pipe()
+        p = ctx.Process(target=_serve, args=(child,), daemon=True)
+        p.start()
+        child.close()
+        workers[parent] = [p, None, 0.0]
+        return parent
+
+    def feed(conn):
+        w = workers[conn]
+        if pending:
+            w[1] = pending.pop()
+            w[2] = time.time()
+            conn.send((w[1], args[w[1]]))
+        else:
+            w[1] = None
+
+    for _ in range(min(procs, len(args))):
+        feed(spawn())
+    done = 0
+    while done < len(args):
+        busy = [c for c, w in workers.items() if w[1] is not None]
+        for c in wait(busy, timeout=0.5):
+            w = workers[c]
+            try:
+                idx, res = c.recv()
+            except (EOFError, OSError):
+                # the worker died (killed from outside, out of memory, crash of a native library): harness error of that instance
+                idx = w[1]
+                res = {"instance": str(args[idx][2])[:200], "errors": [f"pool worker died while running this instance (exit code {w[0].exitcode})"]}
+                w[0].join(timeout=1)
+                del workers[c]
+                c = spawn()
+            results[idx] = res
+            done += 1
+            feed(c)
+        now = time.time()
+        for c, w in list(workers.items()):
+            if w[1] is not None and now - w[2] > limit:
+                idx = w[1]
+                try:
+                    os.kill(w[0].pid, 9)
+                except OSError:
+                    pass
+                w[0].join(timeout=2)
+                del workers[c]
+                c.close()
+                results[idx] = {"instance": str(args[idx][2])[:200], "undecided": 1, "hard_timeout": True, "wall": round(now - w[2], 1),
+                                "notes": [f"instance exceeded the hard wall limit of {limit:.0f} s (a solver call that ignores its time limit); worker killed; not decided"]}
+                done += 1
+                feed(spawn())
+    for c, w in workers.items():
+        try:
+            c.send(None)
+        except Exception:  # noqa: BLE001
+            pass
+    for c, w in workers.items():
+        w[0].join(timeout=2)
+        if w[0].is_alive():
+            w[0].kill()
+    return results
+
+
+def budgets():
+    """(wall budget of one instance's exploration, slack of its query phase, timeout of one property query in ms).
+    The quick tier gives up earlier on the few members whose queries are hard non-linear ones: they are reported
+    as undecided / cut there and get the full budget in the thorough tier."""
+    if os.environ.get("VERIF_TIER") == "quick":
+        return 30.0, 20.0, 6000
+    return 90.0, 60.0, 15000
 
 
 class Check:
@@ -90,6 +191,7 @@ class Check:
         self.pid = pid
         self.level = level
         self.tier = tier
+        os.environ["VERIF_TIER"] = tier          # read by the per-instance budgets (budgets()) in the pool workers
         self.seed = seed
         self.rule = rule
         self.t0 = time.time()
